@@ -100,6 +100,55 @@ pub fn exec(op: &str, a: &[&str]) -> Option<String> {
             });
             Some(r.unwrap_or_else(|p| p))
         }
+        // `sun.off <default | lat,lon> <day> <event 0..3> <offset minutes>`: the minute at which the span
+        // `(event±HH:MM)-48:00` starts on that day, read back from the real evaluator (schedule_at on the day
+        // and on the next one), together with the event's own minute: `<event minute> <resolved start>`
+        // (`-` when no start is visible: the resolved start is 48:00)
+        ("sun.off", [place, day, ev, off]) => {
+            let date = ast::date_of(day.parse().ok()?)?;
+            let next = date.succ_opt()?;
+            let ev: usize = ev.parse().ok()?;
+            let off: i64 = off.parse().ok()?;
+            if ev > 3 || off.abs() > 1440 {
+                return None;
+            }
+            let name = ["dawn", "sunrise", "sunset", "dusk"][ev];
+            let span = if off == 0 { format!("{name}-48:00") } else { format!("({name}{}{:02}:{:02})-48:00", if off < 0 { '-' } else { '+' }, off.abs() / 60, off.abs() % 60) };
+            // the rule applies on that one day only, so that the day itself shows the part before 24:00 and
+            // the next day the part after it (and nothing continued from the day before)
+            let months = ["Jan", "Feb", "Mar", "Apr", "May", "Jun", "Jul", "Aug", "Sep", "Oct", "Nov", "Dec"];
+            let src = format!("{} {} {} {span}", date.year(), months[date.month0() as usize], date.day());
+            if !(1900..=9999).contains(&date.year()) {
+                return None;
+            }
+            let place = place.to_string();
+            let r = catch(move || {
+                let first_open = |ranges: Vec<(u32, u32, RuleKind)>| ranges.into_iter().find(|r| r.2 == RuleKind::Open).map(|r| (r.0, r.1));
+                let (evm, today, tomorrow) = if place == "default" {
+                    let oh = OpeningHours::parse(&src).unwrap();
+                    let sched = |d: NaiveDate| oh.schedule_at(d).into_iter().map(|r| (r.range.start.mins_from_midnight() as u32, r.range.end.mins_from_midnight() as u32, r.kind)).collect::<Vec<_>>();
+                    (tod(&NoLocation, date)[ev], first_open(sched(date)), first_open(sched(next)))
+                } else {
+                    let (la, lo) = place.split_once(',').unwrap();
+                    let coords = Coordinates::new(la.parse().unwrap(), lo.parse().unwrap()).unwrap();
+                    let ctx = Context::from_coords(coords);
+                    let evm = tod(&ctx.locale, date)[ev];
+                    let oh = OpeningHours::parse(&src).unwrap().with_context(ctx);
+                    let sched = |d: NaiveDate| oh.schedule_at(d).into_iter().map(|r| (r.range.start.mins_from_midnight() as u32, r.range.end.mins_from_midnight() as u32, r.kind)).collect::<Vec<_>>();
+                    (evm, first_open(sched(date)), first_open(sched(next)))
+                };
+                // the span runs to 48:00: today's part (if any) ends at 24:00; else the start is 24:00 + the
+                // start of tomorrow's part
+                let start = match (today, tomorrow) {
+                    (Some((s, 1440)), _) => s.to_string(),
+                    (None, Some((s, 1440))) => (1440 + s).to_string(),
+                    (None, None) => "-".to_string(),
+                    other => format!("unexpected:{other:?}").replace(' ', ""),
+                };
+                format!("{evm} {start}")
+            });
+            Some(r.unwrap_or_else(|p| p))
+        }
         ("sun.coords", [la, lo]) => {
             let lat = f64::from_bits(la.parse().ok()?);
             let lon = f64::from_bits(lo.parse().ok()?);
@@ -435,6 +484,30 @@ pub fn gen(tier: &str, rng: &mut Rng, emit: &mut dyn FnMut(String)) {
     }
     for _ in 0..(if thorough { 2000 } else { 200 }) {
         emit(format!("sun.default {}", rng.range(lo, hi)));
+    }
+    // event offsets through the real evaluator: every event x offsets around 0, around the event's own
+    // time of day (where the sum leaves 00:00..48:00 on either side) and the extremes ±24:00, without
+    // coordinates and at a few places
+    let places = ["default", "48.8535,2.34839", "-33.8688,151.2093", "40.7128,-74.006", "1.3521,103.8198", "59.9,10.75"];
+    for place in places {
+        for ev in 0..4 {
+            let base: [i64; 4] = [360, 420, 1140, 1200];
+            let mut offs: Vec<i64> = vec![0, 1, -1, 59, 60, -60, 90, -45, 1439, 1440, -1439, -1440, 720, -720];
+            for d in [-2i64, -1, 0, 1, 2, 30, -30] {
+                offs.push(-base[ev] + d); // around "the sum reaches 00:00"
+                offs.push(1440 - base[ev] + d); // around 24:00
+                offs.push(-base[ev] - 120 + d);
+            }
+            for _ in 0..(if thorough { 60 } else { 6 }) {
+                offs.push(rng.range(-1440, 1440));
+            }
+            for off in offs {
+                if off.abs() <= 1440 {
+                    let day = if thorough { rng.range(lo, hi) } else { *rng.pick(&[crate::ev::ymd(2024, 6, 21), crate::ev::ymd(2024, 12, 21), crate::ev::ymd(2025, 3, 20)]) };
+                    emit(format!("sun.off {place} {day} {ev} {off}"));
+                }
+            }
+        }
     }
     // coordinate validity: all pairs of special values, then random doubles around the limits
     let sp = special_bits();
